@@ -209,7 +209,7 @@ def updateLazy (W : Nat) (junk : Nat → Nat → Nat) (target source : List Nat)
   | .err _, .ok _ => pure target
   | .ok _, .err _ => pure source
   | .ok ns, .ok nt =>
-    match ← updateNode W junk (target.length + source.length + 2) nt ns with
+    match ← updateNode W junk (2 * source.length + 3) nt ns with
     | .inl _ => pure [0x7B, 0x7D]
     | .inr n => pure (serialize n)
 
